@@ -90,7 +90,7 @@ func genC16(r *core.Rand, p *core.Plan) {
 		}
 		// spends of earlier recovered outputs (confirmed in earlier blocks)
 		if ncoins > 0 && r.Chance(1, 3) {
-			p.Ops = append(p.Ops, core.Op{K: "spendcoin", A: []int64{int64(r.Intn(64)), int64(r.Range(-1, 3)), int64(r.Intn(2))}})
+			p.Ops = append(p.Ops, core.Op{K: "spendcoin", A: []int64{int64(r.Intn(64)), int64(r.Range(-1, 3)), int64(r.Intn(2)), int64(r.Intn(3))}})
 		}
 		dt := int64(r.Range(1, 1200))
 		if r.Chance(1, 6) {
@@ -156,7 +156,7 @@ func genC16(r *core.Rand, p *core.Plan) {
 				}
 			}
 			if r.Chance(1, 3) {
-				p.Ops = append(p.Ops, core.Op{K: "spendcoin", A: []int64{int64(r.Intn(64)), int64(r.Range(-1, 3)), int64(r.Intn(2))}})
+				p.Ops = append(p.Ops, core.Op{K: "spendcoin", A: []int64{int64(r.Intn(64)), int64(r.Range(-1, 3)), int64(r.Intn(2)), int64(r.Intn(3))}})
 			}
 			p.Ops = append(p.Ops, core.Op{K: "mine", A: []int64{1, 100, -1, int64(r.Range(1, 1200)), int64(r.Uint64() >> 1)}})
 			for k, v := range inBlock {
@@ -258,8 +258,12 @@ func (rs *runState) spendcoin(step int, op core.Op) {
 	}
 	coins := x.coins()
 	var keys []wire.OutPoint
+	// op.Arg(3) == 1: an output of a payment that is still in the mempool —
+	// the spender is then confirmed in the SAME block as the payment it spends
+	// (a block filter must notice outpoints it found earlier in that block)
+	sameBlock := op.Arg(3) == 1
 	for k, c := range coins {
-		if c.height >= 0 && !(c.coinbase) {
+		if (c.height >= 0 || sameBlock) && !(c.coinbase) {
 			keys = append(keys, k)
 		}
 	}
@@ -301,6 +305,9 @@ func (rs *runState) spendcoin(step int, op core.Op) {
 		return
 	}
 	x.spends = append(x.spends, tx)
+	if c.height < 0 {
+		x.env.Count("probe.spend-in-the-block-of-the-payment-it-spends")
+	}
 	x.env.Count("probe.spend-of-recovered-output")
 	x.env.Eff()
 	x.env.Logf("%d spendcoin %v", step, c.op)
